@@ -26,6 +26,8 @@ type zzStream struct {
 	failAt  int // fail the k-th Write (1-based) when > 0
 	eof     bool
 	onWrite func(p []byte) // called (outside the stream lock) before Write returns
+	closeErr    bool // Close reports an error (the connection is closed nevertheless)
+	blockWrites int  // when > 0: the n-th Write (1-based) and later ones block until the stream is closed
 }
 
 var errZZClosed = errors.New("use of closed connection")
@@ -63,6 +65,11 @@ func (s *zzStream) Write(p []byte) (int, error) {
 	default:
 	}
 	s.mu.Lock()
+	if s.blockWrites > 0 && s.writes+1 >= s.blockWrites {
+		s.mu.Unlock()
+		<-s.closed // a stalled peer: the write only returns when the connection is closed
+		return 0, errZZClosed
+	}
 	s.writes++
 	if s.failAt > 0 && s.writes == s.failAt {
 		s.mu.Unlock()
@@ -79,6 +86,9 @@ func (s *zzStream) Write(p []byte) (int, error) {
 
 func (s *zzStream) Close() error {
 	s.once.Do(func() { close(s.closed) })
+	if s.closeErr {
+		return errors.New("close: connection reset by peer")
+	}
 	return nil
 }
 
